@@ -10,7 +10,7 @@ import itertools
 from vlib.framework import BaseCheck, CaseResult
 
 IDLE, OPEN, BUSY, CLOSED = 1, 2, 3, 4
-SERIAL_SKELETONS = ['open', 'one', 'two', 'after-timeout', 'chunked']
+SERIAL_SKELETONS = ['open', 'one', 'two', 'after-timeout', 'chunked', 'timeout-in-write']
 MUX_SKELETONS = ['open', 'one', 'three', 'timed-out+one', 'queued', 'ping']
 FAULTS = ['error', 'eof', 'refuse', 'silence']
 OPS = [('connect', 0)] + [('send', i) for i in range(4)] + [('recv', i) for i in range(10)]
@@ -42,7 +42,7 @@ PLAN = build_plan()
 class C08(BaseCheck):
   ID = 'C08'
   LEVEL = 'fault_enumeration'
-  RULE = ('enumerated space = {serial Thrift transport x skeletons open/one/two/after-timeout/chunked, '
+  RULE = ('enumerated space = {serial Thrift transport x skeletons open/one/two/after-timeout/chunked/timeout-in-write (deadline fires inside a blocked partial write), '
           'ThriftMux transport x skeletons open(incl. initial ping)/one/three concurrent/timed-out+one/'
           'queued(stalled writer)/ping} + {reply and close (FIN/RST) in one instant on request 0/1/2} x connection ordinal {0,1} x op {connect; send 0-3; recv 0-9} x fault '
           '{exception, EOF, refusal, silence}; quick and thorough both sweep it completely (thorough adds '
@@ -61,7 +61,7 @@ class C08(BaseCheck):
              'scales.scales_socket:ScalesSocket.open')
   REQUIRED_ANCHORS = ANCHORS
   REQUIRED_CLASSES = ('thrift', 'mux', 'fault:connect', 'fault:send', 'fault:recv', 'kind:error', 'kind:eof',
-                      'kind:refuse', 'kind:silence', 'reconnect-fault', 'probe', 'ping-silence', 'reply-and-close-same-instant')
+                      'kind:refuse', 'kind:silence', 'reconnect-fault', 'probe', 'ping-silence', 'reply-and-close-same-instant', 'timeout-in-write')
   ASSUMPTIONS = ('a silence fault (peer stops answering without closing) legitimately leaves the transport '
                  'open; only the probe clause applies then',)
   QUICK_WALL = 180
@@ -229,6 +229,16 @@ class C08(BaseCheck):
         env.advance(1.5)
       elif sk == 'chunked':
         request(act={'delay': 0.001, 'chunks': [(1, 0.001), (3, 0.001), (5, 0.002), (7, 0.0)]})
+        env.advance(1.5)
+      elif sk == 'timeout-in-write':
+        # the peer stops draining: write() commits a prefix of the frame and blocks; the
+        # deadline fires inside the write; afterwards the peer is healthy again
+        classes.add('timeout-in-write')
+        srv.sim.send_delay = lambda conn: 0.3
+        request(T=0.05)
+        step(0.5, 'after the timeout inside write')
+        srv.sim.send_delay = None
+        request()
         env.advance(1.5)
     else:
       if sk == 'one':
